@@ -59,7 +59,7 @@ def run(real, lines):
 
 class C16(Check):
     id = "C16"
-    modules = ["EG.Props.C16"]
+    modules = ["EG.Props.C16", "EG.Props.C05Trav"]
     assumptions = ["renderings are token strings without ', ' or ' -> ' (the exact string is compared with the model; the oracle recomputes it from neighbors())",
                    "sorted() is stable (CPython, trusted)"]
 
